@@ -113,8 +113,24 @@ def ensure_facts(repo="/repo", use_cache=True, extra_args=(), tag=""):
         lock.close()
 
 
+_CODE_HASH0 = None
+
+
 def code_hash():
-    """hash of the analysis code itself (keys derived-table caches)"""
+    """hash of the analysis code as it was when this process first asked (keys derived-table caches)"""
+    global _CODE_HASH0
+    if _CODE_HASH0 is None:
+        _CODE_HASH0 = code_hash_now()
+    return _CODE_HASH0
+
+
+def code_unchanged():
+    """False when the analysis sources were edited while this process runs: its derived tables must
+    then not be cached (they were computed by a mixture of old and new code)"""
+    return code_hash() == code_hash_now()
+
+
+def code_hash_now():
     h = hashlib.sha256()
     d = os.path.join(VERIF, "sa")
     for fn in sorted(os.listdir(d)):
